@@ -79,6 +79,7 @@ type Interp struct {
 	qcache     map[string]qentry
 	qhits      int
 	cur        ssa.Instruction
+	curFn      *ssa.Function // innermost function entered (single word: safe to read racily for diagnostics)
 
 	run *Run // shared run state (solver, queue hooks)
 	sv  *Solver
@@ -362,6 +363,7 @@ func (ip *Interp) callSSA(caller *frame, fn *ssa.Function, args []Value, env []V
 		ip.funcsHit[fn] = true
 	}
 	fi := ip.infoOf(fn)
+	ip.curFn = fn
 	fr := &frame{ip: ip, caller: caller, fn: fn, info: fi}
 	fr.env = make([]Value, fi.n)
 	for i, p := range fn.Params {
@@ -735,6 +737,9 @@ func (ip *Interp) typeAssert(instr *ssa.TypeAssert, x Iface) Value {
 
 func (ip *Interp) noteAlloc(site ssa.Instruction, bytes *Term) {
 	if ip.path != nil && ip.path.AllocHook != nil && !ip.inInit {
+		if site == nil {
+			site = ip.cur
+		}
 		ip.path.AllocHook(ip, site, bytes)
 	}
 }
